@@ -597,8 +597,60 @@ def check_attach_and_bring_in(idx, run):
                 loc(kcls.module, blocked or add))
 
 
+def check_psy_layer_face_counts(idx, run):
+    """Generated PSy layers: DynReferenceElement assigns nfaces_re_h whenever
+    a reference-element property *or a mesh property* (adjacent_face) needs
+    it.  The argument-property table only knows the first reason, so every
+    branch of _invoke_declarations that builds the list of declared scalars
+    has to consult the second one (_nfaces_h_required) as well."""
+    cls = idx.get_class("psyclone.dynamo0p3.DynReferenceElement")
+    init = cls.methods.get("__init__")
+    decl = cls.methods.get("_invoke_declarations")
+    assign = cls.methods.get("initialise")
+    if not (init and decl and assign):
+        raise AnalysisError("DynReferenceElement: __init__ / initialise / "
+                            "_invoke_declarations not found")
+    needed = any(isinstance(n, ast.Attribute) and
+                 n.attr == "_nfaces_h_required" for n in ast.walk(init)) \
+        and "_nfaces_h_symbol" in ast.unparse(assign)
+    if not needed:
+        raise AnalysisError("DynReferenceElement: nfaces_re_h is no longer "
+                            "assigned for a mesh property; rule is stale")
+    count = 0
+
+    def branches(ifnode):
+        yield ifnode.test, ifnode.body
+        if len(ifnode.orelse) == 1 and isinstance(ifnode.orelse[0], ast.If):
+            yield from branches(ifnode.orelse[0])
+    for stmt in decl.body:
+        if not isinstance(stmt, ast.If):
+            continue
+        for test, body in branches(stmt):
+            sets = any(isinstance(a, ast.Assign) and
+                       ast.unparse(a.targets[0]) == "nface_vars"
+                       for b in body for a in ast.walk(b))
+            if not sets:
+                continue
+            count += 1
+            txt = ast.unparse(test) + " " + " ".join(
+                ast.unparse(b) for b in body)
+            run.check("C04.R6", "_nfaces_h_required" in txt,
+                      f"DynReferenceElement._invoke_declarations "
+                      f"[if {ast.unparse(test)[:40]}]",
+                      "nfaces_re_h is declared whenever it is assigned",
+                      f"the branch `if {ast.unparse(test)[:60]}` builds the "
+                      f"list of declared face counts without looking at "
+                      f"_nfaces_h_required: a kernel with the mesh property "
+                      f"adjacent_face and only vertical-face reference-"
+                      f"element properties gets `nfaces_re_h = ...` and the "
+                      f"argument nfaces_re_h in a PSy layer that never "
+                      f"declares it", loc(cls.module, test))
+    run.floor("branches declaring reference-element face counts", count, 2)
+
+
 def check(idx, run):
     run.explanation = __doc__
+    check_psy_layer_face_counts(idx, run)
     from sa.guards import check_guards
     check_guards(idx, run, "C04.R5", GUARDED)
     check_params(idx, run)
